@@ -42,8 +42,19 @@ func (e *Env) with(vars map[string]Val) *Env {
 	for k, v := range vars {
 		n.vars[k] = v
 	}
-	if e.old == e {
+	if e.old == e || e.old == nil {
 		n.old = &n
+	} else {
+		o := *e.old
+		o.vars = map[string]Val{}
+		for k, v := range e.old.vars {
+			o.vars[k] = v
+		}
+		for k, v := range vars {
+			o.vars[k] = v
+		}
+		o.old = &o
+		n.old = &o
 	}
 	return &n
 }
@@ -251,6 +262,17 @@ func (e *Env) ident(name string) Val {
 				g := "global." + sanitize(e.pkg.Name()+"."+name)
 				e.t.declare(g, "Int")
 				return e.loadPtr(scalar(types.NewPointer(obj.Type()), g), obj.Type())
+			}
+		}
+	}
+	// dot-imported names: constants of imported siglens packages
+	if e.pkg != nil {
+		for _, imp := range e.pkg.Imports() {
+			if !strings.HasPrefix(imp.Path(), modulePath) {
+				continue
+			}
+			if c, ok := imp.Scope().Lookup(name).(*types.Const); ok && c.Exported() {
+				return Val{K: VConst, T: c.Type(), C: c.Val()}
 			}
 		}
 	}
@@ -591,6 +613,12 @@ func (e *Env) call(n *ast.CallExpr) Val {
 			e.nargs(n, 1)
 			v := t.materialize(e.eval(n.Args[0]), types.Typ[types.Uint64])
 			return t.float64frombits(v)
+		case "feq":
+			// structural float equality (NaN == NaN, +0 != -0): SMT "="
+			e.nargs(n, 2)
+			a := t.materialize(e.eval(n.Args[0]), types.Typ[types.Float64])
+			b := t.materialize(e.eval(n.Args[1]), types.Typ[types.Float64])
+			return scalar(bt, eq(a.S, b.S))
 		case "nonnil":
 			e.nargs(n, 1)
 			v := e.eval(n.Args[0])
